@@ -52,6 +52,7 @@ type driver struct {
 	readFaults      []fault   // planned read faults not yet observed
 	status          status
 	skipFinalIsOpen bool
+	fedMark         int
 	noSettle        bool
 	trace           []string
 	inconcl         string
@@ -121,6 +122,12 @@ func (d *driver) release() {
 		tr.Close()
 		st.ScriptTransport.Close()
 	}()
+}
+
+// errGenIdle: no stream error has been fed in the current stream session.
+func (d *driver) errGenIdle() bool {
+	opens, _, _, _, _, _ := d.st.Snapshot()
+	return d.errGen != opens
 }
 
 func (d *driver) scriptIdle() bool {
@@ -378,7 +385,7 @@ func (d *driver) doOpen() {
 }
 
 func (d *driver) doEnsureOpen() {
-	for i := 0; !d.m.Open && i < 6 && d.status == stOK; i++ {
+	for i := 0; !d.m.Open && i < 12 && d.status == stOK; i++ {
 		d.doOpen()
 	}
 	if d.status == stOK && !d.m.Open {
@@ -824,6 +831,33 @@ func (d *driver) unansweredCrit(p *lockPicture, _ []gblock) (string, string, boo
 	if s, w, ok := d.deadlockCrit("Request", false)(p, nil); ok {
 		return s, w, ok
 	}
+	// The peer's whole answer has been fed and taken off the stream; if a
+	// snapshot taken after that shows every read loop parked in Read again
+	// and every request of this case still waiting in its select, the answer
+	// was consumed without being delivered and nothing is in flight any more.
+	if d.fedMark >= 0 && d.st.fedCount() > d.fedMark && d.st.Pending() == 0 && d.errGenIdle() {
+		q := analyse(takeDump(), d.ptr, d.gid)
+		d.h.run.Add("goroutine_dumps", 1)
+		quiet := len(q.readers) > 0 && !q.nascent && !q.closing
+		for i := range q.readers {
+			if !q.readers[i].parkedInStreamRead() {
+				quiet = false
+			}
+		}
+		waiting := 0
+		for i := range q.related {
+			if g := &q.related[i]; g.Mine && g.in("Request") {
+				if g.State != "select" {
+					quiet = false
+				}
+				waiting++
+			}
+		}
+		if quiet && waiting > 0 {
+			return "C15:answer-consumed-not-delivered:" + d.ctx(),
+				"the peer's complete answer was read off the stream, the read loop is parked in Read again, the transport is not closing, and the request still waits: the frame was lost inside the transport (e.g. framing state left over from an earlier session)", true
+		}
+	}
 	if len(p.readers) == 0 && !p.nascent && !p.closing {
 		// (await has just re-checked that neither the answer nor a close cause has arrived)
 		if len(d.readFaults) > 0 && d.readFaultFired() {
@@ -844,6 +878,8 @@ func (d *driver) doRequest() {
 	_, _, _, _, sW, sF := d.st.Snapshot()
 	wasOpen := d.m.Open
 	rmark := d.st.snap().readErrs
+	d.fedMark = d.st.fedCount()
+	defer func() { d.fedMark = -1 }()
 	want, res, done := d.startRequest([]byte(fmt.Sprintf("ping-%d", len(d.trace))))
 	if !wasOpen {
 		if !d.await("Request on a closed transport", waitChan(done), d.deadlockCrit("Request", false)) {
@@ -1154,6 +1190,7 @@ func (d *driver) setup() {
 	d.gid = curGID()
 	d.st = newFtrans()
 	d.st.chunked = d.spec.Chunked
+	d.fedMark = -1
 	if len(d.spec.Faults) > 0 {
 		d.st.armOnFault = d.spec.Pol.OpenFails
 	}
